@@ -49,6 +49,13 @@ TRUSTED_BASE_COMMON = [
 def go_env():
     env = dict(os.environ)
     env["GOFLAGS"] = "-mod=mod"
+    try:
+        # many checks at once (development, mutation runs): do not let every go build fan out to 16 jobs
+        if os.getloadavg()[0] > 24:
+            env["GOFLAGS"] = "-mod=mod -p=3"
+            env["GOMAXPROCS"] = "4"
+    except OSError:
+        pass
     env["GOPROXY"] = "off"
     env.pop("GOTOOLCHAIN", None)   # the repo needs the cached go1.24.6 via auto-switch
     env.pop("GOSUMDB", None)
